@@ -461,6 +461,7 @@ class StepClock:
         self.budget = budget
         self.exceeded = False
         self._on = False
+        self._started_once = False
 
     def _mine(self, code):
         return code.co_filename.startswith(self.prefix)
@@ -481,7 +482,9 @@ class StepClock:
             self.exceeded = True
             raise StepBudgetExceeded(self.ticks)
 
-    def start(self):
+    def start(self, restart=True):
+        """restart=False keeps earlier DISABLE answers (code outside parglare) in
+        force, which makes switching the clock on and off often much cheaper."""
         m = sys.monitoring
         if m.get_tool(self.TOOL) is None:
             m.use_tool_id(self.TOOL, "pgsim")
@@ -489,7 +492,9 @@ class StepClock:
         m.register_callback(self.TOOL, ev.PY_START, self._py_start)
         m.register_callback(self.TOOL, ev.JUMP, self._jump)
         m.set_events(self.TOOL, ev.PY_START | ev.JUMP)
-        m.restart_events()
+        if restart or not self._started_once:
+            m.restart_events()
+        self._started_once = True
         self._on = True
         return self
 
